@@ -318,7 +318,7 @@ pub fn mutate_text(text: &str, d: &mut Dice<'_>) -> String {
 /// every `.llw` file of the repository
 pub fn repo_texts() -> Vec<(String, String)> {
     let mut out = vec![];
-    let mut stack = vec![std::path::PathBuf::from("/repo/examples"), std::path::PathBuf::from("/repo/tests/frontend"), std::path::PathBuf::from("/repo/src/frontend")];
+    let mut stack = vec![crate::ev::repo().join("examples"), crate::ev::repo().join("tests/frontend"), crate::ev::repo().join("src/frontend")];
     while let Some(p) = stack.pop() {
         if let Ok(rd) = std::fs::read_dir(&p) {
             let mut es: Vec<_> = rd.flatten().map(|e| e.path()).collect();
